@@ -249,6 +249,7 @@ func TestC40(t *testing.T) {
 		"cryptographic negatives are sampled single-field neighbours of genuine headers",
 	)
 
+	wireRounds := rec.Pick(1, 2)
 	rec.Check(func(rt *rapid.T) {
 		era := rapid.SampledFrom(c40Eras).Draw(rt, "era")
 		rec.Class("era_" + era.Name)
@@ -457,16 +458,18 @@ func TestC40(t *testing.T) {
 		}
 
 		// (1) one change per signed header field, signature kept
-		for _, m := range wireMutations(hdr, rmut) {
-			h2 := hdr.clone()
-			m.Apply(h2)
-			if bytes.Equal(h2.headerBytes(), hdr.headerBytes()) {
-				rt.Fatalf("harness: mutation %s is a no-op", m.Name)
+		for round := 0; round < wireRounds; round++ {
+			for _, m := range wireMutations(hdr, rmut^(uint64(round)*0x9e3779b97f4a7c15)) {
+				h2 := hdr.clone()
+				m.Apply(h2)
+				if bytes.Equal(h2.headerBytes(), hdr.headerBytes()) {
+					rt.Fatalf("harness: mutation %s is a no-op", m.Name)
+				}
+				if !expectAllReject("wire", m.Name, h2, ctx, nil, nil) {
+					return
+				}
+				rec.Class("neg_wire_field")
 			}
-			if !expectAllReject("wire", m.Name, h2, ctx, nil, nil) {
-				return
-			}
-			rec.Class("neg_wire_field")
 		}
 
 		// (1b) same header data, one integer head re-encoded in a longer form (the signed
